@@ -24,7 +24,7 @@ func init() {
 		Builds:   []string{"default", "386"}, // the 386 build runs 1/12 of the random classes on a 32-bit target
 		Scale386: 12,
 		Parallel: 4, // cases are judged on 4 goroutines per shard: the library functions are stateless, shared state inside them shows up as wrong verdicts
-		Rule: "(curve, seed, path): curves secp256k1, NIST P-256, ed25519 and four pluggable curves (secp256k1/P-256 wrapped so that a quarter of all candidate I_L values are declared invalid, on NewPrivateKey and Shift, private and public side; in a second mode a sixteenth return a permanent error); seeds of length 0..128; paths of length 0..8 over {0, 1, 2^31-1, 2^31, 2^31+1, 2^32-1, random hardened / non-hardened}. Each node (stepwise NewMasterKey/DeriveChild, DeriveKeyFromPath of every prefix, Public(), public-side child) is compared with the SLIP-0010 model: private key, chain code, serialized public key, parent fingerprint; undefined derivations must fail, permanent errors must be returned. " +
+		Rule: "(curve, seed, path): curves secp256k1, NIST P-256, ed25519 and four pluggable curves (secp256k1/P-256 wrapped so that a quarter of all candidate I_L values are declared invalid (half of them with the sentinel wrapped by %w), on NewPrivateKey and Shift, private and public side; in a second mode a sixteenth return a permanent error); seeds of length 0..128; paths of length 0..8 over {0, 1, 2^31-1, 2^31, 2^31+1, 2^32-1, random hardened / non-hardened}. Each node (stepwise NewMasterKey/DeriveChild, DeriveKeyFromPath of every prefix, Public(), public-side child) is compared with the SLIP-0010 model: private key, chain code, serialized public key, parent fingerprint; undefined derivations must fail, permanent errors must be returned. deep: paths of 255, 256, 257, 300, 512 and 513 elements on the three built-in curves, derived node by node and through DeriveKeyFromPath, every node and (around depth 256 and 512) its public side compared with the model. " +
 			"Non-trivial: distinct cases with path length >= 1.",
 		Assumptions: []string{"HMAC-SHA512, SHA-256 (standard library), RIPEMD-160 (x/crypto)", "the SLIP-0010 model in harness/oracle/slip10m over oracle/weier and oracle/ed (self-tested against the published SLIP-0010 vectors of all three curves incl. the P-256 retry vectors)"},
 		SelfTest:    slip10m.SelfTest,
@@ -34,7 +34,7 @@ func init() {
 			p := fw.Unpack(key)
 			return map[string]interface{}{"curve": curveName(p[0][0]), "seed": fw.Hex(p[1]), "path": decPath(p[2])}
 		},
-		Required: []string{"shared parent object used concurrently", "appended into spare capacity of returned slices, key unchanged", "wrap-around shifts checked", "node ok", "master retry taken", "child retry taken", "permanent error returned", "undefined derivation refused", "public child ok"},
+		Required: []string{"deep paths (255..513 elements) derived node by node", "shared parent object used concurrently", "appended into spare capacity of returned slices, key unchanged", "wrap-around shifts checked", "node ok", "master retry taken", "child retry taken", "permanent error returned", "undefined derivation refused", "public child ok"},
 	})
 }
 
@@ -66,6 +66,10 @@ func (c *plugCurve) HmacKey() []byte { return c.base.HmacKey() }
 func (c *plugCurve) check(buf []byte) error {
 	switch verdict(c.mode, buf) {
 	case slip10m.Invalid:
+		if len(buf) > 30 && buf[30]&1 == 1 {
+			// the sentinel wrapped with context, as an implementation of the Curve interface may do
+			return fmt.Errorf("harness curve: candidate %x… refused: %w", buf[:2], slip10.ErrInvalidKey)
+		}
 		return slip10.ErrInvalidKey
 	case slip10m.Permanent:
 		return errPermanent
@@ -249,9 +253,69 @@ func cmpErr(o *fw.Obs, what string, e *slip10.ExtendedKey, err, merr error, pubP
 	return true
 }
 
+// judgeDeep: derivation paths of 255..513 elements (depth counters narrower than int), stepwise and through
+// DeriveKeyFromPath, every node compared with the model.
+func judgeDeep(cid byte, seed []byte, path []uint32, o *fw.Obs) {
+	o.Nontrivial()
+	curve, mp := curves(cid)
+	mnode, merr := mp.Master(seed)
+	if merr != nil {
+		return // judged by the derive class
+	}
+	var node *slip10.ExtendedKey
+	var err error
+	if !o.Try("NewMasterKey", func() { node, err = slip10.NewMasterKey(seed, curve) }) {
+		return
+	}
+	if err != nil {
+		o.Fail("error", "%s master: unexpected error %v", curveName(cid), err)
+		return
+	}
+	for step, idx := range path {
+		mchild, merr := mp.Child(mnode, idx)
+		if merr != nil {
+			return // the model defines nothing beyond this point; judged by the derive class
+		}
+		var child *slip10.ExtendedKey
+		if !o.Try("DeriveChild", func() { child, err = node.DeriveChild(idx) }) {
+			return
+		}
+		what := fmt.Sprintf("%s deep path (%d elements, seed %x) depth %d (index %d)", curveName(cid), len(path), seed, step+1, idx)
+		if err != nil {
+			o.Fail("error", "%s: unexpected error %v", what, err)
+			return
+		}
+		if !cmpNode(o, what, child, mchild) {
+			return
+		}
+		node, mnode = child, mchild
+		if d := step + 1; d >= 254 && d <= 258 || d >= 510 {
+			if !judgePublic(o, cid, mp, node, mnode, path[:d], d) {
+				return
+			}
+		}
+	}
+	var viaPath *slip10.ExtendedKey
+	if !o.Try("DeriveKeyFromPath", func() { viaPath, err = slip10.DeriveKeyFromPath(seed, curve, path) }) {
+		return
+	}
+	if err != nil {
+		o.Fail("error", "%s deep path (%d elements): DeriveKeyFromPath failed: %v", curveName(cid), len(path), err)
+		return
+	}
+	if !cmpNode(o, fmt.Sprintf("%s deep path (%d elements, seed %x) via DeriveKeyFromPath", curveName(cid), len(path), seed), viaPath, mnode) {
+		return
+	}
+	o.Count("deep paths (255..513 elements) derived node by node")
+}
+
 func judge(class string, key []byte, o *fw.Obs) {
 	p := fw.Unpack(key)
 	cid, seed, path := p[0][0], p[1], decPath(p[2])
+	if class == "deep" {
+		judgeDeep(cid, seed, path, o)
+		return
+	}
 	curve, mp := curves(cid)
 	if len(path) >= 1 {
 		o.Nontrivial()
@@ -592,5 +656,27 @@ func gen(g *fw.Gen) {
 			}
 		}
 		g.Emit("derive", fw.Pack([]byte{cid}, seed, encPath(path)))
+	}
+	// deep paths: one per (built-in curve, length), spread over the shards; thorough: several seeds
+	i := 0
+	for rep := 0; rep < g.Pick(1, 6); rep++ {
+		for cid := byte(0); cid < 3; cid++ {
+			for _, l := range []int{255, 256, 257, 300, 512, 513} {
+				i++
+				if !g.Own(i) || (g.Build == "386" && l > 300) {
+					continue
+				}
+				path := make([]uint32, l)
+				for k := range path {
+					path[k] = g.Rng.Uint32()
+					if cid == 2 || g.Rng.Intn(3) == 0 {
+						path[k] |= 1 << 31
+					} else if g.Rng.Intn(2) == 0 {
+						path[k] &^= 1 << 31
+					}
+				}
+				g.Emit("deep", fw.Pack([]byte{cid}, g.Bytes(16+g.Rng.Intn(49)), encPath(path)))
+			}
+		}
 	}
 }
